@@ -126,6 +126,14 @@ class SymFile:
         self.closed = True
         FS.log.append(("close", self.name))
 
+    def truncate(self, size=None):
+        self._chk()
+        FS.log.append(("truncate", self.name, size))
+        return size
+
+    def flush(self):
+        self._chk()
+
     def __enter__(self):
         return self
 
